@@ -22,8 +22,18 @@ def seeds_table():
         need = (m.get("needs_to_manifest") or "").replace("|", "/").replace("\n", " ")
         rows.append("| `%s` | %s | %s | %s |" % (m["id"], m["property"], need[:260] + ("…" if len(need) > 260 else ""), det))
     return "\n".join(rows)
+def refactorings_table():
+    rows = ["| refactoring | what was restructured |", "|---|---|"]
+    def key(d):
+        pid, n = os.path.basename(os.path.dirname(d)).split("-")
+        return (pid, int(n))
+    for d in sorted(glob.glob(V + "/refactorings/*/meta.json"), key=key):
+        m = json.load(open(d))
+        summ = (m.get("summary") or "").replace("|", "/").replace("\n", " ")
+        rows.append("| `%s` | %s |" % (os.path.basename(os.path.dirname(d)), summ[:230] + ("…" if len(summ) > 230 else "")))
+    return "\n".join(rows)
 s = open(V + "/DESIGN.md").read()
-for name, fn in (("rules", rules_table), ("seeds", seeds_table)):
+for name, fn in (("rules", rules_table), ("seeds", seeds_table), ("refactorings", refactorings_table)):
     b, e = "<!-- BEGIN:%s -->" % name, "<!-- END:%s -->" % name
     if b in s:
         s = s[:s.index(b) + len(b)] + "\n" + fn() + "\n" + s[s.index(e):]
